@@ -13,6 +13,9 @@ package internal
 //@   nopanic[C04.nopanic C12.nopanic]
 //@   modifies
 //@   ensures[C04.kv_nonnil] result != nil && (forall j Int :: 0 <= j && j < len(result) ==> result[j] != nil)
+//@   defines isKvOf(result, mds)
+//@   loop 0 invariant[C04.kv_nonnil] h != nil && (forall j Int :: 0 <= j && j < len(h) ==> h[j] != nil)
+//@   loop 1 invariant[C04.kv_nonnil] h != nil && (forall j Int :: 0 <= j && j < len(h) ==> h[j] != nil)
 
 //@ func internal.StatsStartServerRPC
 //@   nopanic[C20.nopanic C12.nopanic C13.nopanic]
